@@ -27,7 +27,7 @@ TRUSTED = [
     "C15 Process objects are built on a fake procfs (harness/common/fakeproc.py); Process.is_running() is the real code reading that procfs, which the simulated kernel updates when a non-child ends",
 ]
 MANIFEST = {
-    "level_text": "Machine-checked Lean 4 proofs over a virtual-time model (exact rationals, fuelled loops) of _psposix.wait_pid, Process.wait and psutil.wait_procs, for EVERY exit instant, timeout, status word, EINTR pattern, set-iteration order and number of processes: never early, status decoding = wait(2) encoding for all exit codes 0-255 and signals 1-126 (with/without core), TimeoutExpired only at/after the deadline carrying seconds/pid and less than one 40 ms poll late, sleep schedule min(0.1ms*2^n, 40ms), timeout=0 never sleeps, negative timeout -> ValueError, cached later calls, termination with a timeout (explicit fuel bound), EINTR cannot change a returned result, wait_procs partition / callback exactly once / returncode / gone-really-ended / return before deadline+40ms. Partial: 'TimeoutExpired only with the process still alive' is proved for calls whose last waitpid was not interrupted, with a proved counterexample (EINTR at the deadline) recorded as a known finding; syscalls cost zero virtual time. Tied to the code by translator facts (0.0001, *2, 0.04, check-before-sleep, >=, >= 0 validation, 1.0/len(alive)) feeding the proof obligation cfg_good, by a differential run of the real functions over a virtual clock comparing result/exception fields, full sleep log, return instant, callback log, and by an exhaustive sweep of all 65 536 status words.",
+    "level_text": "Machine-checked Lean 4 proofs over a virtual-time model (exact rationals, fuelled loops) of _psposix.wait_pid, Process.wait and psutil.wait_procs, for EVERY exit instant, timeout, status word, EINTR pattern, set-iteration order and number of processes: never early, status decoding = wait(2) encoding for all exit codes 0-255 and signals 1-126 (with/without core), TimeoutExpired only at/after the deadline carrying seconds/pid and less than one 40 ms poll late, sleep schedule min(0.1ms*2^n, 40ms), timeout=0 never sleeps, negative timeout -> ValueError, cached later calls, termination with a timeout (explicit fuel bound), EINTR cannot change a returned result, wait_procs partition / callback exactly once / returncode / gone-really-ended / return before deadline+40ms / termination with a timeout (explicit pass bound, potential argument). Partial: 'TimeoutExpired only with the process still alive' is proved for calls whose last waitpid was not interrupted, with a proved counterexample (EINTR at the deadline) recorded as a known finding; syscalls cost zero virtual time. Tied to the code by translator facts (0.0001, *2, 0.04, check-before-sleep, >=, >= 0 validation, 1.0/len(alive)) feeding the proof obligation cfg_good, by a differential run of the real functions over a virtual clock comparing result/exception fields, full sleep log, return instant, callback log, and by an exhaustive sweep of all 65 536 status words.",
     "level_note": "Trusted: Lean kernel + {propext, Classical.choice, Quot.sound}; the translator; the correspondence harness and its simulated kernel; zero-cost syscalls; doubles = exact rationals; glibc W* macros as transcribed.",
     "technique": "Lean 4 invariants over fuelled loops in virtual time (Rat) + translator-fed proof obligation + differential correspondence under a virtual clock with exhaustive status-word sweep",
     "design_ref": "DESIGN.md §5 C15",
@@ -1107,7 +1107,7 @@ def correspond(ctx, res, sweep=True):
                     "with 1-5 processes); non-trivial = the call slept, timed out, was interrupted, was repeated on the "
                     "same object, or (wait_procs) made more than one wait call; distinct = distinct canonical cases; "
                     "plus all 65 536 status words")
-        n = ctx.n(5000, 100000)
+        n = ctx.n(5000, 150000)
         cases = list(CORPUS)
         for i in range(n):
             r = i % 10
